@@ -232,14 +232,24 @@ def rational_of(node):
     raise ValueError("exponent is not a rational literal")
 
 
-def identify_items(c, idx, p):
+# minimised failures of earlier runs: replayed first in every run
+IDENT_CORPUS = [("3*e-1", ["e"], 8, True, False, 53)]     # listed 1/log((920-sqrt(0))/800), 1.8e-4 off, before fix 99b280e
+
+
+def identify_items(c, idx, p, forced=None):
     mp, rng = c.mp, c.rng
-    s, consts = rng.choice(IDENT)
-    x = mpeval(mp, s)
-    if rng.random() < 0.3:
-        x = -x
-    tol = rng.choice([None, mp.mpf(10) ** -rng.randint(6, 12)])
-    full = rng.random() < 0.3
+    if forced is not None:
+        s, consts, tdig, full, neg = forced[:5]
+        x = mpeval(mp, s)
+        if neg: x = -x
+        tol = None if tdig is None else mp.mpf(10) ** -tdig
+    else:
+        s, consts = rng.choice(IDENT)
+        x = mpeval(mp, s)
+        if rng.random() < 0.3:
+            x = -x
+        tol = rng.choice([None, mp.mpf(10) ** -rng.randint(6, 12)])
+        full = rng.random() < 0.4
     base = {"prec": p, "x": list(x._mpf_), "planted": s, "constants": consts, "tol": None if tol is None else mp.nstr(tol, 5),
             "full": full, "fn": "identify"}
     r_, exc = call(c, "identify", lambda: mp.identify(x, consts, tol=tol, full=full), None)
@@ -306,6 +316,9 @@ def build(rep, tier_, rng):
     N = 240 if tier_ == "quick" else 4000
     p0 = mp.prec
     try:
+        for k, forced in enumerate(IDENT_CORPUS):
+            mp.prec = forced[5]
+            c.identify_items += identify_items(c, 90000 + k, forced[5], forced=forced)
         for idx in range(N):
             which = idx % 8
             if which in (0, 1):
